@@ -512,5 +512,13 @@ PROPS["C18"] = {
     "assumptions": [],
 }
 
+PROPS["C18"]["check_mods"].append("CoreMix")
+PROPS["C18"]["drivers"].append({"name": "c18core", "n_quick": 240, "n_thorough": 12000, "timeout": 3000})
+PROPS["C18"]["rule"] += (" c18core (CoreProbe): handle_channel_readable against marks of 0 / 12 / 13 / 30 / 100 / 400 / "
+    "16 MiB changed on the way: mailboxes filled to their bound, channel wake-ups (also for slots that are gone), "
+    "partial writes; after every wake-up channels_need_repoll is read; every observation must equal the Core "
+    "model's (Model/Core.v chan_readable with its high-water check).")
+PROPS["C18"]["trusted_base"] = PROPS["C18"]["trusted_base"] + CORE_TRUSTED
+
 # properties not claimed, with the reason (kept current)
 NOT_APPLICABLE = {}
